@@ -16,6 +16,7 @@ m("C01", "client/session swapped in build", "header.py", "            self.clien
 m("C01", "only first message of a datagram delivered", "sd.py", "            while data:\n                # 4.2.1, TR_SOMEIP_00140", "            if data:\n                # 4.2.1, TR_SOMEIP_00140")
 m("C01", "payload slice off by one", "header.py", "payload_b, buf_rest = buf_rest[: size - 8], buf_rest[size - 8 :]", "payload_b, buf_rest = buf_rest[: size - 8], buf_rest[size - 7 :]")
 m("C05", "D10 reverted: listeners notified while iterating the live sets", "sd.py", "                for listener in list(listeners):\n                    if listener in listeners:\n                        listener.service_offered(service, source)", "                for listener in listeners:\n                    if listener in listeners:\n                        listener.service_offered(service, source)")
+m("C06", "D12 reverted: reboot applied while walking the live list of instances", "sd.py", "        for instance in list(self.announcing_services):\n            instance.reboot_detected(addr)", "        for instance in self.announcing_services:\n            instance.reboot_detected(addr)")
 m("C10", "D11 reverted: pending unicast offers not flushed ahead of the StopOffer", "sd.py", "            self.announcer.flush_offers(self.service)\n", "            pass\n")
 # ---- C16
 m("C16", "method check before version check", "service.py", "        if someip_message.interface_version != self.version_major:", "        if someip_message.method_id in self.methods and someip_message.interface_version != self.version_major:")
